@@ -30,7 +30,7 @@ MIN_NONTRIVIAL = {"quick": 20_000, "thorough": 26_000}
 
 
 def shards(tier):
-    return [{"kind": "sm", "i": i} for i in range(14)] + [{"kind": "grid"}, {"kind": "file"}]
+    return [{"kind": "sm", "i": i} for i in range(13)] + [{"kind": "grid"}, {"kind": "file"}, {"kind": "long"}]
 
 
 def grid(res):
@@ -44,7 +44,13 @@ def grid(res):
         thr = min(10 * 2 ** k, 1800)
         for d in sorted({0, 1, thr - 1, thr, thr + 1, 9, 10, 11, 1799, 1800, 1801, 10 ** 7}):
             p = RP.DisconnectedRemotePeer("1.2.3.4", 2412, RP.OUTGOING, 1000, ban_score=k)
-            got = p.is_time_to_connect(1000 + d)
+            try:
+                got = p.is_time_to_connect(1000 + d)
+            except Exception as e:
+                # the network manager calls this for every waiting peer in every step, outside any per-connection handler:
+                # an exception here ends the node's network loop
+                res.fail("backoff", "is_time_to_connect-raised:" + type(e).__name__, "is_time_to_connect(k=%d, dt=%d) raised %r (the manager step that asks this for every waiting peer would end the network loop)" % (k, d, e), {"grid": [k, d]})
+                continue
             want = (k <= 2880) and d >= thr
             res.evaluations += 1
             res.disjoint += 1
@@ -55,6 +61,101 @@ def grid(res):
             res.fail("backoff", "is_time_to_connect-never-tried", "never-tried peer with k=%d" % k, {"grid": [k, None]})
     res.exhaustive = True
     res.sample({"grid": "k in 0..2890 x dt in {0,1,thr-1,thr,thr+1,9,10,11,1799,1800,1801,1e7}", "constants": consts})
+
+
+def long_dead_peer(mode, rounds=None, bystander=False):
+    """One outgoing address that never greets -- it refuses every connection / answers every connection with garbage / hangs
+    up at once -- for the node's WHOLE retry schedule with the real constants (2,881 attempts; the k-th wait is
+    min(10 s * 2^k, 30 min), about two months of virtual time).  The manager is stepped one second before and exactly at the
+    earliest permitted time of every attempt.  -> dict(attempts=[times], early=[...], escaped=[...], alive=bool, ...)"""
+    from vf import simnet
+    env.import_networking()
+    from skepticoin.networking import remote_peer as RP, messages as M
+    from skepticoin.coinstate import CoinState
+    simnet.install()
+    simnet.CLOCK.now = 1_700_000_000
+    net = simnet.Net()
+    node = net.add("n", "10.0.0.1", CoinState.zero(), 4242, disk=simnet.RecDisk())
+    node.cm.started_at = -10 ** 9
+    by = None
+    if bystander:
+        by = simnet.Wire(net, node, host="10.0.0.20")
+        by.greet(nonce=77)
+    node.nm.disconnected_peers.update(RP.load_peers_from_list([("10.0.0.77", 2412, RP.OUTGOING)]))
+    attempts = []
+    orig = node.lp.start_outgoing_connection
+
+    def spy(peer):
+        if peer.host == "10.0.0.77":                       # (a greeted bystander's own listening address is dialled too)
+            attempts.append(simnet.CLOCK.now)
+        return orig(peer)
+
+    node.lp.start_outgoing_connection = spy
+    limit = RP.MAX_CONNECTION_ATTEMPTS
+    rounds = rounds or (limit + 6)
+    early, late, unserved = [], [], 0
+
+    def settle():
+        for s in list(net.pending_connects):
+            net.pending_connects.remove(s)
+            if mode == "refuse" or tuple(s.remote_addr)[0] != "10.0.0.77":
+                s.refused = True
+            else:
+                r = simnet.FakeSock(node=simnet._Outside(net, "10.0.0.77"))
+                r.peer, s.peer = s, r
+                r.established = s.established = True
+                if mode == "garbage":
+                    s.inflight += b"\x16\x03\x01\x02\x00 not this protocol"
+                else:
+                    r.close()
+        net.drain(None, only=[node], connects=False)
+
+    for k in range(rounds):
+        need = min(10 * 2 ** min(k, 40), 1800)
+        n0 = len(attempts)
+        if attempts:
+            simnet.CLOCK.now = attempts[-1] + need - 1
+            net.step(node)
+            settle()
+            if len(attempts) > n0:
+                early.append((k, need))
+            simnet.CLOCK.now = attempts[-1] + need
+        net.step(node)
+        settle()
+        if len(attempts) == n0 and k <= limit:
+            late.append(k)
+        if net.escaped:
+            break
+        if by is not None and k % 200 == 0:
+            m0 = len(by.received)
+            by.send(M.GetPeersMessage())
+            by.deliver()
+            if not any(isinstance(m, M.PeersMessage) for _h, m in by.received[m0:]):
+                unserved += 1
+    return {"attempts": attempts, "early": early, "late": late, "escaped": list(net.escaped), "limit": limit, "unserved": unserved,
+            "ban_score": max([p.ban_score for p in node.nm.disconnected_peers.values()] + [0])}
+
+
+def run_long(res, tier, seed):
+    for mode in (["refuse"] if tier == "quick" else ["refuse", "garbage", "close"]):
+        out = long_dead_peer(mode)
+        res.evaluations += len(out["attempts"])
+        res.disjoint += len(out["attempts"])
+        res.count("long_schedule_attempts:" + mode, len(out["attempts"]))
+        case = {"long": mode}
+        if out["escaped"]:
+            res.fail("escape", "exception-escaped:" + out["escaped"][0][1].split("(")[0], "a peer that never greets (%s), attempt #%d of its retry schedule: an exception left the manager step / event handling and ends the network loop: %s" % (
+                mode, len(out["attempts"]), out["escaped"][0][1]), case)
+            continue
+        if out["early"]:
+            k, need = out["early"][0]
+            res.fail("backoff", "retry-too-early", "a peer that never greets (%s): attempt #%d came before %d s had passed since the previous one" % (mode, k + 1, need), case)
+        if len(out["attempts"]) > out["limit"] + 1:
+            res.fail("backoff", "retry-beyond-give-up", "a peer that never greets (%s) was tried %d times; the configured number of failures is %d" % (mode, len(out["attempts"]), out["limit"]), case)
+        if len(out["attempts"]) < out["limit"] + 1:
+            res.fail("backoff", "gave-up-early-or-late-retry", "a peer that never greets (%s) was tried only %d times when stepped at the earliest permitted moments (configured failures: %d; first missing attempt #%s)" % (
+                mode, len(out["attempts"]), out["limit"], out["late"][:1]), case)
+    res.sample({"long_schedule": "one address that never greets, stepped through the complete retry schedule with the real constants"})
 
 
 class Conn:
@@ -103,7 +204,8 @@ class Exec:
 
         self.disk = Disk()
         self.net = simnet.Net()
-        self.node = self.net.add("n", self.OWN[0], CoinState.zero(), 4242, disk=self.disk, port=self.OWN[1])
+        # the node's own nonce is a random 32-bit number in production: the whole range is drawn
+        self.node = self.net.add("n", self.OWN[0], CoinState.zero(), init.get("nonce", 4242), disk=self.disk, port=self.OWN[1])
         nm = self.node.nm
         nm.disconnected_peers = RP.load_peers_from_list([(h, p, RP.OUTGOING) for (h, p) in [self.addrs[i % len(self.addrs)] for i in init["initial"]]])
         self.conns = []
@@ -396,10 +498,11 @@ class Machine(RuleBasedStateMachine):
         self.ops = []
         self.dead = False
 
-    @initialize(initial=st.lists(st.integers(0, 5), min_size=1, max_size=4, unique=True), maxk=st.sampled_from([3, 3, None]), big=st.booleans())
-    def setup(self, initial, maxk, big):
+    @initialize(initial=st.lists(st.integers(0, 5), min_size=1, max_size=4, unique=True), maxk=st.sampled_from([3, 3, None]), big=st.booleans(),
+                nonce=st.one_of(st.integers(0, (1 << 32) - 1), st.sampled_from([0, 1, (1 << 31) - 1, 1 << 31, (1 << 32) - 1])))
+    def setup(self, initial, maxk, big, nonce):
         big = big and Machine.tier == "thorough"
-        self.init = {"initial": list(range(130)) if big else initial, "max_attempts": maxk, "big": big}
+        self.init = {"initial": list(range(130)) if big else initial, "max_attempts": maxk, "big": big, "nonce": nonce}
         self.ex = Exec(self.init)
 
     def do(self, op):
@@ -532,6 +635,9 @@ def run(shard, tier, seed):
     if shard["kind"] == "grid":
         grid(res)
         return res
+    if shard["kind"] == "long":
+        run_long(res, tier, seed)
+        return res
     if shard["kind"] == "file":
         for f in file_check(res, seed):
             res.fail(f["kind"], f["sig"], f["msg"], {"file_check": seed})
@@ -563,4 +669,8 @@ def replay(case):
         return res.failures
     if "file_check" in case:
         return file_check(Result(), case["file_check"])
+    if "long" in case:
+        res = Result()
+        run_long(res, "thorough" if case["long"] != "refuse" else "quick", 1)
+        return res.failures
     return execute(case)
